@@ -254,7 +254,11 @@ PROPS = {
               "an independent interpreter of each target format (SXFM tree + CNF clauses; pl configuration lines) enumerates "
               "the configurations the written file admits and compares them with the source model's valid configurations "
               "(independent enumerator); also compared with the model's [sxfm_sat] / [pl_sat]. inputs: random models with all "
-              "relation kinds the format can express, awkward names, requires/excludes and general constraints"),
+              "relation kinds the format can express, awkward names, requires/excludes and general constraints; one-constraint "
+              "models over a tree that leaves three features free: every operator directly inside every operator on either side "
+              "and under NOT (nest-ctc), a stratified sample (quick) / 6000 (thorough) of all constraint trees of depth <= 2 "
+              "(exh-ctc), same-shaped constraints over names differing only in case (case-twins). Output that the "
+              "interpreter cannot read is reported as export-not-in-target-syntax"),
         assumptions=["the SXFM / pl interpreters in the harness are this check's reading of the two formats"],
     ),
     "C11": dict(
@@ -263,7 +267,8 @@ PROPS = {
         rule=("suites W-clafer (bytes of ClaferWriter vs [render_clafer]) and S-clafer (independent interpreter of the "
               "Clafer subset: group cardinalities xor/or/mux/[a..b], optional marker, constraints in brackets; instances "
               "enumerated and compared with the source model's valid configurations and with [clafer_sat]); every identifier "
-              "checked against Clafer's identifier syntax"),
+              "used is one declared; the nest-ctc / exh-ctc / case-twins constraint streams of C10; output that the interpreter "
+              "cannot read is reported as export-not-in-target-syntax"),
         assumptions=["the Clafer-subset interpreter in the harness is this check's reading of the Clafer language"],
     ),
 
